@@ -870,6 +870,11 @@ func (c *deadlineContextWriter) writeContext(ctx context.Context, p []byte) (int
 		return 0, ErrConnectionClosed
 	}
 
+	// select picks at random among ready cases: ctx may have ended before we got here
+	if err := ctx.Err(); err != nil {
+		return 0, err
+	}
+
 	if c.timeout > 0 {
 		err := c.w.SetWriteDeadline(time.Now().Add(c.timeout))
 		if err != nil {
@@ -919,6 +924,8 @@ type writeRequest struct {
 	resultChan chan<- writeResult
 	// data to write.
 	data []byte
+	// ctx of the request; a request whose ctx has ended when the batch is flushed is not written.
+	ctx context.Context
 }
 
 type writeResult struct {
@@ -932,6 +939,7 @@ func (w *writeCoalescer) writeContext(ctx context.Context, p []byte) (int, error
 	wr := writeRequest{
 		resultChan: resultChan,
 		data:       p,
+		ctx:        ctx,
 	}
 
 	select {
@@ -967,12 +975,14 @@ func (w *writeCoalescer) writeFlusherImpl(timerC <-chan time.Time, resetTimer fu
 
 	var buffers net.Buffers
 	var resultChans []chan<- writeResult
+	var ctxs []context.Context
 
 	for {
 		select {
 		case req := <-w.writeCh:
 			buffers = append(buffers, req.data)
 			resultChans = append(resultChans, req.resultChan)
+			ctxs = append(ctxs, req.ctx)
 			if !running {
 				// Start timer on first write.
 				resetTimer()
@@ -991,9 +1001,21 @@ func (w *writeCoalescer) writeFlusherImpl(timerC <-chan time.Time, resetTimer fu
 			return
 		case <-timerC:
 			running = false
-			w.flush(resultChans, buffers)
+			// a request whose context ended while it was waiting for the flush has not been
+			// written yet: drop it, so that no byte of it reaches the connection
+			live := 0
+			for i := range buffers {
+				if ctx := ctxs[i]; ctx != nil && ctx.Err() != nil {
+					resultChans[i] <- writeResult{n: 0, err: ctx.Err()}
+					continue
+				}
+				buffers[live], resultChans[live] = buffers[i], resultChans[i]
+				live++
+			}
+			w.flush(resultChans[:live], buffers[:live])
 			buffers = nil
 			resultChans = nil
+			ctxs = nil
 			if w.testFlushedHook != nil {
 				w.testFlushedHook()
 			}
